@@ -16,7 +16,8 @@ RULE = (
     "concentration and flux at every level; S(q,c)-S(q,0) == (c, 0) uniformly; footprint results for two different source arrays of "
     "the same shape are bit-identical. Non-trivial = q1,q2 linearly independent and a*b != 0; distinct = canonical JSON."
 )
-ASSUMPTIONS = ["shooting growth bounded by exp(13.8) by construction", "levels ascending (ordering is C10's subject)"]
+TINY = 1e-290  # below this the fields are in or next to the subnormal range, where rounding is absolute (5e-324), not relative
+ASSUMPTIONS = ["fields smaller than 1e-290 are not compared relatively (a shrunk thorough-tier report had coefficients a = 0, b = 2.2e-308 and a difference of 38 subnormal quanta)", "shooting growth bounded by exp(13.8) by construction", "levels ascending (ordering is C10's subject)"]
 TOLERANCES = {"linearity": "(1e-12 + 4096*eps*G) * (|a| max|S1| + |b| max|S2| + max|S12|)", "footprint independence": "bit-identical"}
 BUDGET = {"quick": dict(examples=1000, shards=1), "thorough": dict(examples=10000, shards=16)}
 
@@ -78,7 +79,7 @@ def check_case(case):
         s1, s2 = (c1s, c2s) if name == "conc" else (f1s, f2s)
         scale = abs(a) * max(tol.maxabs(X1), s1) + abs(b) * max(tol.maxabs(X2), s2) + tol.maxabs(X12)
         err = tol.maxabs(X12 - (a * X1 + b * X2))
-        if not err <= rel * scale:
+        if not err <= rel * scale + TINY:
             out.bad(f"{name}: S(a q1+b q2, a c1+b c2) differs from a S(q1,c1)+b S(q2,c2) by {err:.3e} (> {rel * scale:.3e}); a={a}, b={b}")
 
     # homogeneity on its own: S(a q1, a c1) == a S(q1, c1), including amplitudes many decades away from one
@@ -86,16 +87,16 @@ def check_case(case):
         Ca, Fa = run(a * q1, a * c1)
         for name, X1, Xa, s1 in (("conc", C1, Ca, c1s), ("flux", F1, Fa, f1s)):
             err = tol.maxabs(Xa - a * X1)
-            if not err <= rel * abs(a) * max(tol.maxabs(X1), s1):
+            if not err <= rel * abs(a) * max(tol.maxabs(X1), s1) + TINY:
                 out.bad(f"{name}: S(a q, a c) differs from a S(q, c) by {err:.3e} (> {rel * abs(a) * max(tol.maxabs(X1), s1):.3e}) for a = {a!r}")
 
     # background is a uniform offset of the concentration and leaves the flux alone
     C10, F10 = run(q1, 0.0)
     d = C1 - C10
     cs = max(tol.maxabs(C1), abs(c1), c1s)
-    if not tol.maxabs(d - c1) <= rel * cs:
+    if not tol.maxabs(d - c1) <= rel * cs + TINY:
         out.bad(f"conc(q, bg={c1}) - conc(q, 0) is not the uniform offset {c1}: deviation {tol.maxabs(d - c1):.3e}")
-    if not tol.maxabs(F1 - F10) <= rel * max(tol.maxabs(F1), f1s):
+    if not tol.maxabs(F1 - F10) <= rel * max(tol.maxabs(F1), f1s) + TINY:
         out.bad(f"flux changes with the background concentration by {tol.maxabs(F1 - F10):.3e}")
 
     # footprint: independent of the values of the source array
